@@ -30,7 +30,7 @@ ASSUMPTIONS = ["numerary / beartype as installed decide what the type-checker re
 EXPLANATION = "theorems C19_asInt_iff, C19_count, C19_repeat, C19_parity, C19_position(+_float), C19_within, C19_both_limits, C19_roll_outcome, C19_limit_int/_fractional/_nonfinite"
 
 ARGS = ["f:1.0", "q:1/1", "q:3/2", "f:1.5", "q:999/1000", "i:2", "i:0", "i:1", "i:-1", "i:-3", "i:7", "b:1", "b:0", "n:2", "n:-1", "f:2.0", "f:0.0", "f:2.5", "f:-1.0", "f:0.5", "f:0.25", "f:nan", "f:inf", "f:-inf", "q:2/1", "q:5/2", "q:1/3", "q:-1/1", "q:0/1", "s:a", "x:None"]
-ENTRIES = ["count", "count_dup", "count_acc", "repeat_h", "repeat_rh", "repeat_p", "repeat_r", "ostat_n", "parity", "parity_fn", "pos_h", "pos_rwc", "pos_getitem", "pos_h0", "pos_rwc0", "limit_explode", "limit_foreach", "within", "both", "rolloutcome"]
+ENTRIES = ["repeat_p0", "repeat_rp0", "repeat_h0", "count", "count_dup", "count_acc", "repeat_h", "repeat_rh", "repeat_p", "repeat_r", "ostat_n", "parity", "parity_fn", "pos_h", "pos_rwc", "pos_getitem", "pos_h0", "pos_rwc0", "limit_explode", "limit_foreach", "within", "both", "rolloutcome"]
 
 
 def dec_arg(s):
@@ -123,6 +123,12 @@ def _evaluate(case):
                 out = as_int_result(lambda a: a @ h6, arg)
             elif e == "repeat_p":
                 out = as_int_result(lambda a: p3 @ a, arg)
+            elif e == "repeat_p0":
+                out = as_int_result(lambda a: P() @ a, arg)
+            elif e == "repeat_rp0":
+                out = as_int_result(lambda a: a @ (0 @ p3), arg)
+            elif e == "repeat_h0":
+                out = as_int_result(lambda a: a @ H({}), arg)
             elif e == "repeat_r":
                 out = as_int_result(lambda a: r @ a, arg)
             elif e == "ostat_n":
@@ -236,7 +242,7 @@ def model(case):
     e = case["entry"]
     if e in ("count", "count_dup", "count_acc"):
         return " ".join(["GUARD", "0"] + arg_tokens(case["arg"]))
-    if e in ("repeat_h", "repeat_rh", "repeat_p", "repeat_r", "ostat_n"):
+    if e in ("repeat_h", "repeat_rh", "repeat_p", "repeat_r", "ostat_n", "repeat_p0", "repeat_rp0", "repeat_h0"):
         return " ".join(["GUARD", "1"] + arg_tokens(case["arg"]))
     if e in ("parity", "parity_fn"):
         return " ".join(["GUARD", "2"] + arg_tokens(case["arg"]))
@@ -294,7 +300,7 @@ def generate(rnd, tier, scale):
                 arg = "f:2.5"
             if e == "parity" and (arg in ("f:nan",)):
                 arg = "q:5/2"
-            if e in ("repeat_h", "repeat_rh", "repeat_p", "repeat_r", "ostat_n", "count", "count_dup", "count_acc") and arg == "i:7":
+            if e in ("repeat_h", "repeat_rh", "repeat_p", "repeat_r", "ostat_n", "count", "count_dup", "count_acc", "repeat_p0", "repeat_rp0", "repeat_h0") and arg == "i:7":
                 arg = "i:3"
             if e == "ostat_n" and arg in ("i:0", "b:0", "f:0.0", "q:0/1"):
                 arg = "i:2"
